@@ -31,6 +31,9 @@ type SubSpec struct {
 	NackPct   int  // percentage of (uuid) that get 1..3 nacks before the ack
 	Slow      int  // max Gosched calls before settling
 	Mutate    bool // edit the received copy's metadata / re-assign its payload before settling
+	// NestedForward: the nested publish (NestedTo) hands the RECEIVED message object itself, still unsettled, to Publish
+	// (what a pass-through handler does) instead of a fresh message
+	NestedForward bool
 	// HoldFirstMs: the consumer that receives the subscription's first delivery keeps it unsettled for that long
 	// (a timer the quiescence detector knows about) - anything the Pub/Sub does on a timer while a message is held shows up
 	HoldFirstMs int
@@ -431,7 +434,11 @@ func (r *Run) consume(s *SubRec, seed uint64) {
 			vlib.TimerWait(time.Duration(sp.HoldFirstMs) * time.Millisecond)
 		}
 		if sp.NestedTo >= 0 && first {
-			r.publishOne(-1-s.ID, sp.NestedTo, fmt.Sprintf("%s/nested/s%d/%s", r.ID, s.ID, d.UUID))
+			if sp.NestedForward {
+				r.forwardOne(-1-s.ID, sp.NestedTo, msg, d.UUID)
+			} else {
+				r.publishOne(-1-s.ID, sp.NestedTo, fmt.Sprintf("%s/nested/s%d/%s", r.ID, s.ID, d.UUID))
+			}
 		}
 		if sp.Mutate {
 			msg.Metadata.Set("mutated-by", s.CtxVal)
@@ -534,6 +541,12 @@ func (r *Run) publisher(pi int, ps PubSpec, rr *vlib.Rand) {
 func (r *Run) publishOne(pub, topic int, uuid string) {
 	m := r.newMessage(uuid, []byte("n"))
 	rec := &PubRec{Pub: pub, Topic: topic, UUID: uuid, Orig: m, OrigSnap: vlib.Snap(m)}
+	r.doPublish(topic, []*PubRec{rec}, []*message.Message{m})
+}
+
+// forwardOne publishes a received message object as it is (same UUID, same identity, whatever ack state it has).
+func (r *Run) forwardOne(pub, topic int, m *message.Message, id string) {
+	rec := &PubRec{Pub: pub, Topic: topic, UUID: id, Orig: m, OrigSnap: vlib.Snap(m)}
 	r.doPublish(topic, []*PubRec{rec}, []*message.Message{m})
 }
 
